@@ -5,8 +5,11 @@ From KB Require Export Base.Cases Model.Election Model.Handover.
 Local Open Scope N_scope.
 
 Inductive act :=
-| AElect (c : cid) (h bc bu : bytes) (t1 t2 : N)   (* process c: tryAcquireOrRenew + OnStartedLeading; bc/bu = bytes of the record it
-                                                       would create / update to; t1,t2 = what the engine's oracle answered (environment) *)
+| AElect (c : cid) (h bc bu : bytes) (t1 t2 : N) (tf : bool)
+                                                    (* process c: tryAcquireOrRenew + OnStartedLeading; bc/bu = bytes of the record it
+                                                       would create / update to; t1,t2 = what the engine's oracle answered (environment);
+                                                       tf = the oracle fails on the read that follows the committed lock write *)
+| ASync (c : cid) (r : N)                           (* follower c serves a read: revision.SyncReadRevision -> SetCurrentRevision(r) *)
 | AOp (c : cid) (o : hop)
 | AList (c : cid)
 | AGet (c : cid) (t : N)                            (* a standby polls the lock: resourceLock.Get() without acquiring (t = oracle answer) *)
@@ -17,6 +20,7 @@ Inductive aobs :=
 | OOp (r : hres)
 | OList (hdr : N) (kvs : list (bytes * bytes * N))
 | OGet (r : res)
+| OSync
 | ORestart.
 
 Record c15_case := mkC15 { c_engine : engine; c_script : list (act * aobs) }.
@@ -46,8 +50,8 @@ Definition mstate0 : mstate := mkM world0 (fun _ => proc0).
 
 Definition m_step (e : engine) (s : mstate) (a : act) : mstate * aobs :=
   match a with
-  | AElect c h bc bu t1 t2 =>
-      let '(w', p', r, g, wr) := elect e (m_w s) (m_p s c) h bc bu t1 t2 in
+  | AElect c h bc bu t1 t2 tf =>
+      let '(w', p', r, g, wr) := elect_f e (m_w s) (m_p s c) h bc bu t1 t2 tf in
       (mkM w' (upd (m_p s) c p'), OElect r g wr (w_data w') (rec_bytes (w_lock w')))
   | AOp c o =>
       let '(w', p', r) := serve (m_w s) (m_p s c) o in
@@ -58,6 +62,8 @@ Definition m_step (e : engine) (s : mstate) (a : act) : mstate * aobs :=
   | AGet c t =>
       let g := do_get (w_lock (m_w s)) (p_lock (m_p s c)) GOk (TOk (clock e (m_w s) t)) in
       (mkM (m_w s) (upd (m_p s) c (mkP (o_cand g) (p_lead (m_p s c)))), OGet (o_res g))
+  | ASync c r =>
+      (mkM (m_w s) (upd (m_p s) c (mkP (p_lock (m_p s c)) (set_current (p_lead (m_p s c)) r))), OSync)
   | ARestart => (mkM (restart e (m_w s)) (m_p s), ORestart)
   end.
 
@@ -68,6 +74,7 @@ Definition aobs_eqb (a b : aobs) : bool :=
   | OOp r, OOp r' => hres_eqb r r'
   | OList h k, OList h' k' => (h =? h') && list_eqb kv_eqb k k'
   | OGet r, OGet r' => res_eqb r r'
+  | OSync, OSync => true
   | ORestart, ORestart => true
   | _, _ => false
   end.
@@ -86,17 +93,23 @@ Definition c15_check (c : c15_case) : bool := c15_run (c_engine c) mstate0 (c_sc
        revision in dump;
    (b) the first request on a key that is live in dump, if it is an Update/Delete guarded with the
        key's true revision (the index record in dump), succeeds;
-   (c) a List(0) before its first request returns the newest version of every live key of dump.
-   Violations are classified: 1 = finding C15-F1 (engine = Badger and the stored maximum exceeds the
-   timestamp the leader started from), 0 = anything else. *)
+   (c) a List(0) before its first request returns the newest version of every live key of dump;
+   (d) every List(0) it serves reads at a revision that has caught up with everything it has handed
+       out (the node is not wedged).
+   Violations are classified: 1 = finding C15-F1 (engine = Badger and the timestamp the leader
+   started from is below the stored maximum or below a revision the node had already synced to as a
+   follower), 0 = anything else. *)
 Record ost15 := mkOS {
   os_leader  : option cid;
   os_base    : N;                 (* the version the leader started from *)
   os_dump    : dstore;
   os_touched : list bytes;        (* keys the leader has written to since *)
-  os_fresh   : bool               (* no request served since the election *)
+  os_fresh   : bool;              (* no request served since the election *)
+  os_last    : N;                 (* largest revision the leader has handed out *)
+  os_sbase   : N;                 (* largest revision the leader had synced to as a follower *)
+  os_syncs   : cid -> N           (* per process: largest revision it was synced to *)
 }.
-Definition ost0 : ost15 := mkOS None 0 [] [] false.
+Definition ost0 : ost15 := mkOS None 0 [] [] false 0 0 (fun _ => 0).
 
 Definition hop_key (o : hop) : bytes :=
   match o with HCreate k _ | HUpdate k _ _ | HDelete k _ => k end.
@@ -107,12 +120,13 @@ Definition guarded_true (d : dstore) (o : hop) : bool :=
   | _ => false
   end.
 Definition act_cid (a : act) : cid :=
-  match a with AElect c _ _ _ _ _ | AOp c _ | AList c | AGet c _ => c | ARestart => 0 end.
+  match a with AElect c _ _ _ _ _ _ | AOp c _ | AList c | AGet c _ | ASync c _ => c | ARestart => 0 end.
 
 Definition o15_step (s : ost15) (x : act * aobs) : option ost15 :=
   match x with
-  | (AElect c _ _ _ _ _, OElect (EAcquired v) _ _ dump _) => Some (mkOS (Some c) v dump [] true)
-  | (AElect c _ _ _ _ _, _) => Some s
+  | (AElect c _ _ _ _ _ _, OElect (EAcquired v) _ _ dump _) =>
+      Some (mkOS (Some c) v dump [] true 0 (os_syncs s c) (os_syncs s))
+  | (AElect c _ _ _ _ _ _, OElect _ _ _ _ _) => Some s
   | (AOp c o, OOp r) =>
       match os_leader s with
       | Some l =>
@@ -120,23 +134,34 @@ Definition o15_step (s : ost15) (x : act * aobs) : option ost15 :=
             let m := dmax (os_dump s) in
             let k := hop_key o in
             let first := negb (existsb (beqb k) (os_touched s)) in
-            let ok_a := match h_class r with HOk | HNotFound => m <? h_rev r | _ => true end in
+            let handed := match h_class r with HOk | HNotFound => true | _ => false end in
+            let ok_a := if handed then m <? h_rev r else true in
             let ok_b := if first && guarded_true (os_dump s) o then hclass_eqb (h_class r) HOk else true in
-            if ok_a && ok_b then Some (mkOS (os_leader s) (os_base s) (os_dump s) (k :: os_touched s) false) else None
+            if ok_a && ok_b
+            then Some (mkOS (os_leader s) (os_base s) (os_dump s) (k :: os_touched s) false
+                            (if handed then N.max (os_last s) (h_rev r) else os_last s) (os_sbase s) (os_syncs s))
+            else None
           else Some s
       | None => Some s
       end
-  | (AList c, OList _ kvs) =>
+  | (AList c, OList hdr kvs) =>
       match os_leader s with
-      | Some l => if (c =? l) && os_fresh s
-                  then if list_eqb kv_eqb kvs (list_latest (os_dump s)) then Some s else None
+      | Some l => if c =? l
+                  then if (os_last s <=? hdr) && (if os_fresh s then list_eqb kv_eqb kvs (list_latest (os_dump s)) else true)
+                       then Some s else None
                   else Some s
       | None => Some s
       end
+  | (ASync c r, OSync) =>
+      Some (mkOS (os_leader s) (os_base s) (os_dump s) (os_touched s) (os_fresh s) (os_last s) (os_sbase s)
+                 (upd (os_syncs s) c (N.max (os_syncs s c) r)))
   | (ARestart, ORestart) => Some s
   | (AGet _ _, OGet _) => Some s
   | _ => None          (* an observation of the wrong shape *)
   end.
+
+Definition f1_signature (e : engine) (s : ost15) : bool :=
+  engine_eqb e EBadger && (os_base s <? N.max (dmax (os_dump s)) (os_sbase s)).
 
 Fixpoint o15_run (e : engine) (s : ost15) (xs : list (act * aobs)) : option N :=
   match xs with
@@ -144,7 +169,7 @@ Fixpoint o15_run (e : engine) (s : ost15) (xs : list (act * aobs)) : option N :=
   | x :: tl =>
       match o15_step s x with
       | Some s' => o15_run e s' tl
-      | None => Some (if engine_eqb e EBadger && (os_base s <? dmax (os_dump s)) then 1 else 0)
+      | None => Some (if f1_signature e s then 1 else 0)
       end
   end.
 
